@@ -40,6 +40,9 @@ def _run_variant(v):
       src = f.read()
     edits = v["edits"] if "edits" in v else [(v["old"], v["new"])]
     for old, new in edits:
+      if v.get("all") and src.count(old) >= 1:
+        src = src.replace(old, new)
+        continue
       if src.count(old) != 1:
         return dict(id=v["id"], prop=v["prop"], kind=v["kind"], status="skipped", why=f"`old` text occurs {src.count(old)} times", wall=0)
       src = src.replace(old, new)
